@@ -9,7 +9,7 @@ import (
 // The reference model interprets the term; the real interpreter receives the
 // term rendered to source text, so the reader is inside the loop.
 type node struct {
-	k    byte // 'i' int, 's' symbol, 'q' quote, 'l' list, 'P' program string (argument of load-string)
+	k    byte // 'i' int, 's' symbol, 't' string literal, 'q' quote, 'l' list, 'P' program string (argument of load-string)
 	i    int
 	s    string
 	kids []*node
@@ -19,6 +19,7 @@ type node struct {
 func nI(i int) *node          { return &node{k: 'i', i: i} }
 func nS(s string) *node       { return &node{k: 's', s: s} }
 func nQ(n *node) *node        { return &node{k: 'q', kids: []*node{n}} }
+func nT(s string) *node       { return &node{k: 't', s: s} }
 func nQS(s string) *node      { return nQ(nS(s)) }
 func nL(kids ...*node) *node  { return &node{k: 'l', kids: kids} }
 func nP(forms ...*node) *node { return &node{k: 'P', kids: forms} }
@@ -41,6 +42,10 @@ func (n *node) renderTo(b *strings.Builder) {
 		b.WriteString(strconv.Itoa(n.i))
 	case 's':
 		b.WriteString(n.s)
+	case 't':
+		b.WriteByte('"')
+		b.WriteString(escapeString(n.s))
+		b.WriteByte('"')
 	case 'q':
 		b.WriteByte('\'')
 		n.kids[0].renderTo(b)
